@@ -69,13 +69,20 @@ HugeCases(shape) ==
              v == Mk(dt, shape, LAMBDA idx : IF idx[a + 1] = 0 THEN Fin(1) ELSE Fin(0))
          IN P(CaseRec("softmax", "Softmax", <<AI("axis", a)>>, <<X>>, MustValue(<<v>>), <<"value", "huge", dt>>))
 
+\* an axis at the edge of the 64-bit range is out of range for every tensor
+ExtremeAxisCases(shape) ==
+   \A k \in 1..Len(ExtremeI64) : LET e == ExtremeI64[k] X == Dist("f32", shape) IN
+      /\ P(CaseRec("argmax", "ArgMax", <<AI("axis", e)>>, <<X>>, MustError, <<"invalid", "extreme_axis">>))
+      /\ \A op \in {"Softmax", "LogSoftmax"} : P(CaseRec("softmax", op, <<AI("axis", e)>>, <<X>>, MustError, <<"invalid", "extreme_axis">>))
+      /\ \A op \in {"ReduceMax", "ReduceMin"} : P(CaseRec("reduce", op, <<AIs("axes", <<e>>)>>, <<X>>, MustError, <<"invalid", "extreme_axis">>))
+
 Init ==
    \/ ("argmax" \in Fams /\ st \in [fam : {"argmax"}, shape : Shapes, done : {FALSE}])
    \/ ("reduce" \in Fams /\ st \in [fam : {"reduce"}, op : {"ReduceMax", "ReduceMin"}, shape : Shapes, done : {FALSE}])
    \/ ("softmax" \in Fams /\ st \in [fam : {"softmax"}, op : {"Softmax", "LogSoftmax"}, shape : Shapes, done : {FALSE}])
 Emit ==
    /\ ~st.done
-   /\ CASE st.fam = "argmax" -> ArgMaxCases(st.shape) /\ (Len(st.shape) = 2 => ArgMaxDt(st.shape))
+   /\ CASE st.fam = "argmax" -> ArgMaxCases(st.shape) /\ (Len(st.shape) = 2 => ArgMaxDt(st.shape)) /\ (Len(st.shape) <= 2 /\ st.shape[1] = 2 => ExtremeAxisCases(st.shape))
         [] st.fam = "reduce" -> ReduceCases(st.op, st.shape) /\ (Len(st.shape) = 2 => ReduceDt(st.op, st.shape))
         [] st.fam = "softmax" -> SoftCases(st.op, st.shape) /\ (st.op = "Softmax" => HugeCases(st.shape))
    /\ st' = [st EXCEPT !.done = TRUE]
